@@ -5,7 +5,8 @@ quote / unquote / HTML escape / UTF-8; GenNum: number conversion and printing; G
 views, Preorder) are replayed with SONIC_MODE unset and with SONIC_MODE=noavx2, with identical
 seeds and concretisations (lengths and paddings around 16/32/64); every observation of every case
 (accept/reject, values, output bytes, error texts and positions) is hashed per case and the two
-digests must be equal. The specification contributes the input sets, the alignment/length
+digests must be equal. The encoder's emitting sites (spec/EncBuf.tla: every zoo value
+at every buffer capacity, through EncodeInto) are run under both instruction sets as well. The specification contributes the input sets, the alignment/length
 concretisation and the definition both variants must meet (checked by C02/C20/C19/C14).
 """
 from .. import vf
@@ -48,10 +49,33 @@ def check(ctx):
             evals += pair["base"]["evals"] + pair["env"]["evals"]
             samples.extend((pair["base"].get("samples") or [])[:1])
             per.append({"universe": uni + "/" + str(name), "cases": n, "different": d})
+    # the encoder's emitting sites at every buffer capacity (spec/EncBuf.tla; vh encbuf): the generated code picks native routines
+    # and their modes by instruction set (base64, quoting), and a growth of the buffer in the middle of a value is where it
+    # re-derives its registers. Expected bytes come from encoding/json; what C13 requires is that both instruction sets agree.
+    import json as _json, os as _os
+    eb = {}
+    for tag, env in (("base", None), ("env", dict([ENV.split("=")]))):
+        f = _os.path.join(ctx.work, "encbuf-%s.json" % tag)
+        vf.vh(ctx, ["encbuf", "-out", f, "-seed", ctx.seed, "-encbufmax", ctx.pick(400, 4000)], timeout=3000, env=env)
+        eb[tag] = _json.load(open(f))
+    bsig, esig = eb["base"].get("bad_by_sig") or {}, eb["env"].get("bad_by_sig") or {}
+    bdet = {b["detail"] for b in eb["base"].get("bad") or []}
+    ebdiff = 0
+    if bsig != esig or len(eb["base"].get("crashes") or []) != len(eb["env"].get("crashes") or []):
+        ebdiff = 1
+        only = [b for b in (eb["env"].get("bad") or []) if b["detail"] not in bdet] or [b for b in (eb["base"].get("bad") or [])]
+        rec = {"kind": "encbuf_env_difference", "env": ENV, "base_bad_by_sig": bsig, "env_bad_by_sig": esig,
+               "first": only[:3], "crashes_base": (eb["base"].get("crashes") or [])[:2], "crashes_env": (eb["env"].get("crashes") or [])[:2]}
+        vf.violation(ctx, "EncodeInto over the emitting-site zoo differs between instruction sets (%s): %s" % (
+            ENV, (only[0]["detail"] if only else "crash counts differ")[:200]), rec)
+    total += eb["base"]["encbuf_cases"]
+    different += ebdiff
+    evals += eb["base"]["evals"] + eb["env"]["evals"]
+    per.append({"universe": "encbuf", "cases": eb["base"]["encbuf_cases"], "different": ebdiff})
     cov = {
         "evaluations": evals,
         "distinct_nontrivial": total,
-        "rule": "case = one state of GenLex / GenStr / GenNum / GenSearch, replayed with the same seed under both instruction sets; a case "
+        "rule": "case = one state of GenLex / GenStr / GenNum / GenSearch (and one (value, capacity, prefix) of the EncBuf zoo), replayed with the same seed under both instruction sets; a case "
                 "counts once; compared by a digest over all observations (results, outputs, error texts, positions)",
         "samples": samples[:6],
         "states": states,
